@@ -28,7 +28,7 @@ ASSUMPTIONS = [
 ]
 REQUIRED_CLAUSES = ["no-stall", "completes-exactly-once", "step-barrier", "every-allocation-runs-once", "iterations-not-cut-short", "completed-by-stops-others", "completed-by-ends-element", "complete-sent-at-most-once", "any-not-before-first-finish"]
 OPTIONAL_CLAUSES = ["complete-not-lost"]
-REQUIRED_FEATURES = {"idle-between-rows-shape": 5, "parallel": 5, "completed-by-name": 3, "completed-by-any": 3, "over-commit": 3, "multi-host": 3, "multi-worker": 5, "adversarial-delays": 3, "empty-worker-cores": 2}
+REQUIRED_FEATURES = {"idle-between-rows-shape": 5, "throttled-completing-task-shape": 3, "parallel": 5, "completed-by-name": 3, "completed-by-any": 3, "over-commit": 3, "multi-host": 3, "multi-worker": 5, "adversarial-delays": 3, "empty-worker-cores": 2}
 BUDGET = {"quick": {"cases": 900, "seconds": 34}, "thorough": {"cases": 20000, "seconds": 700}}
 EPS = 1e-6
 
@@ -51,6 +51,8 @@ def gen_task(rng, name, role, unit_time):
         base = max(base, 0.05)
     if rng.random() < 0.25 and role != "long":
         t["target_throughput"] = rng.choice([1, 5, 50])
+        if rng.random() < 0.4:
+            t["schedule"] = "poisson"  # every client draws its own waiting times: the clients of a task finish at different times
     if role == "long" and "iterations" in t:
         t["iterations"] = max(60, min(t["iterations"], int(1500 / max(base, 0.01))))  # keep the natural end within ~1500 virtual seconds
     t["requests"] = [[{"wire": rng.choice([1, 1, 2])}]]
@@ -107,6 +109,18 @@ def gen_case(rng):
         long_["clients"] = a
         n += 3
         elements.insert(rng.randrange(len(elements) + 1), {"parallel": True, "tasks": [short, comp, long_], "completed_by": comp["name"], "clients_cap": a + b})
+    throttled = (not window) and rng.random() < 0.08
+    if throttled:
+        # Targeted shape: the completed-by task itself is throttled and has several clients in ONE worker that finish at different times
+        # (Poisson schedule). Its first client to finish sets the worker's complete flag while the others wait for their next slot:
+        # they must carry on until they have run all their iterations.
+        comp = gen_task(rng, f"t{n}", "completing", 0.01)
+        comp.update({"clients": rng.choice([2, 3]), "warmup_iterations": 0, "iterations": rng.choice([6, 10]), "target_throughput": rng.choice([2, 4]), "schedule": "poisson",
+                     "requests": [[{"wire": 1}]], "svc": {"mode": "const", "base": 0.01, "seed": 1}})
+        long_ = gen_task(rng, f"t{n + 1}", "long", 0.3)
+        long_["clients"] = 1
+        n += 2
+        elements.insert(rng.randrange(len(elements) + 1), {"parallel": True, "tasks": [comp, long_], "completed_by": comp["name"]})
     nhosts = rng.choice([1, 1, 1, 2, 3])
     case = {
         "elements": elements,
@@ -120,6 +134,9 @@ def gen_case(rng):
         "clock_offsets": rng.random() < 0.8,
         "seed": rng.randint(0, 1 << 40),
     }
+    if throttled:
+        case["cores"], case["hosts"], case["test_mode"] = 1, ["localhost"], False
+        case["throttled_completing_shape"] = True
     if window:
         case["cores"] = max(2, case["cores"])
         case["delay"] = rng.choice(["small", "heavy", "adversarial"])
@@ -400,6 +417,8 @@ def features_of(case):
         f.add("test-mode")
     if case.get("window_shape"):
         f.add("idle-between-rows-shape")
+    if case.get("throttled_completing_shape"):
+        f.add("throttled-completing-task-shape")
     return f
 
 
